@@ -2331,7 +2331,8 @@ class Attribute(object):
             throw(TypeError, 'Cannot change value of primary key')
         with cache.flush_disabled():
             old_val =  obj._vals_.get(attr, NOT_LOADED)
-            if old_val is NOT_LOADED and reverse and not reverse.is_collection:
+            if old_val is NOT_LOADED and reverse:
+                # the previous partner / owner has to be told (its collection, its cached count)
                 old_val = attr.load(obj)
             status = obj._status_
             wbits = obj._wbits_
